@@ -96,6 +96,9 @@ struct SockInner {
     waker: Mutex<Option<Waker>>,
     /// datagrams handed to the fabric during the current virtual millisecond
     rate: Mutex<(u64, u64)>,
+    /// the machine behind this socket is gone (crashed, unplugged): whatever it still sends vanishes,
+    /// nothing reaches it, and its address is free for somebody else
+    detached: std::sync::atomic::AtomicBool,
 }
 
 /// A socket has a finite send rate: at most this many datagrams per virtual millisecond
@@ -278,6 +281,15 @@ impl Fabric {
             st.blackholes.insert(addr);
         } else {
             st.blackholes.remove(&addr);
+        }
+    }
+
+    /// The machine at `addr` disappears without a word: its socket stays with its owner but is cut off
+    /// for good, and the address can be bound again at once (by another machine).
+    pub fn detach(&self, addr: SocketAddr) {
+        let mut st = self.state.lock().unwrap();
+        if let Some(s) = st.sockets.remove(&addr) {
+            s.detached.store(true, std::sync::atomic::Ordering::SeqCst);
         }
     }
 
@@ -535,6 +547,9 @@ impl AsyncUdpSocket for SimSocket {
     }
 
     fn try_send(&self, transmit: &Transmit) -> io::Result<()> {
+        if self.inner.detached.load(std::sync::atomic::Ordering::SeqCst) {
+            return Ok(()); // sent into the void
+        }
         let seg = transmit.segment_size.unwrap_or(transmit.contents.len()).max(1);
         {
             let now_ms = self.fabric.now_ms();
